@@ -192,6 +192,27 @@ def wrapper_and_bare_reference_agree(kind: int, required: bool, wrap: int) -> bo
     return type(bare) is type(other) and bare.get_type_string() == other.get_type_string() and bare.required == other.required == required and da == db and sorted(s1.classes_by_name) == sorted(s2.classes_by_name)
 
 
+def reference_keeps_component_default(kind: int, required: bool) -> bool:
+    """
+    Using a schema through a reference gives the same wire behaviour as an inline copy - including the default the
+    component declares (leaving the argument out sends it).  Finding C20-F1 on the pinned tree: the reference drops it.
+    pre: 0 <= kind < 6
+    post: _
+    """
+    schemas = _pick(_DEFAULTED, kind)
+    if schemas.errors:
+        return False
+    required = True if required else False
+    r = {"$ref": "#/components/schemas/Target"}
+    by_ref, _ = property_from_data(name="p", required=required, data=oai.Reference.model_validate(r), schemas=schemas, parent_name="Parent", config=CFG)
+    inline, _ = property_from_data(name="p", required=required, data=oai.Schema.model_validate(_pick(DEFAULTED_KINDS, kind)), schemas=Schemas(), parent_name="Parent", config=CFG)
+    if isinstance(by_ref, PropertyError) or isinstance(inline, PropertyError):
+        return False
+    da = None if by_ref.default is None else by_ref.default.raw_value
+    db = None if inline.default is None else inline.default.raw_value
+    return da == db
+
+
 # ------------------------------------------------------------------------------------------------ component that is only a reference
 from openapi_python_client.parser.properties import ModelProperty, build_schemas  # noqa: E402
 
